@@ -125,7 +125,7 @@ theorem evalPeFields_doc {V F} (σ : Env V F) (a b : Val V) (fields : List Field
 
 theorem evalPoFields_doc {V F} (σ : Env V F) (a b : Val V) (fields : List FieldE) :
     evalPoFields σ a b (docFieldsOut .partialOrd fields) = docPcmpFields σ a b fields := by
-  unfold docFieldsOut docPcmpFields
+  unfold docFieldsOut docPcmpFields firstNonEqOpt
   induction docCompared .partialOrd fields with
   | nil => rfl
   | cons f fs ih =>
@@ -143,7 +143,7 @@ theorem evalPoFields_doc {V F} (σ : Env V F) (a b : Val V) (fields : List Field
 
 theorem evalOrdFields_doc {V F} (σ : Env V F) (a b : Val V) (fields : List FieldE) :
     evalOrdFields σ a b (docFieldsOut .ord fields) = docCmpFields σ a b fields := by
-  unfold docFieldsOut docCmpFields
+  unfold docFieldsOut docCmpFields firstNonEq
   induction docCompared .ord fields with
   | nil => rfl
   | cons f fs ih =>
